@@ -380,5 +380,7 @@ def run(ctx):
     # runs rebuild whatever the solve reads (state of an earlier shift on the same wrapper object must not survive)
     from . import c06
     c06.recompute_complete(ctx, only=tuple(k for k in c06.RECOMPUTED if k[1] == 'set_shift' or k == ('Spectra::BKLDLT', 'compute')))
+    from . import hygiene
+    hygiene.view_storage_scanned_with_its_layout(ctx)
     ctx.require('triangle-option-reaches-every-use', 18)
     ctx.require('assembled-matrix-triangle-typestate', 16)
